@@ -17,3 +17,4 @@ UNITS += [CK.unit_distinct_count_init(), CK.unit_audit_first_token(), FL.unit_fi
 UNITS += [IF.unit_add_field_format()]
 from contracts import tools as TL
 UNITS += [TL.unit_validated_python_name(), TL.unit_generated_tokens()]
+UNITS += [IF.unit_cid_init()]
